@@ -228,10 +228,14 @@ theorem C28_dup_detect_partial (d : Decls) (h : ¬ (finalIds d).Nodup) : (compil
     simp [hasDup] at this
   · next hemp => simpa [List.isEmpty_iff] using hemp
 
-example : ¬ (finalIds ⟨[(cs ['a','_','b'], []), (cs ['A','_','B'], [])], [], false, none, []⟩).Nodup := by
+example : ¬ (finalIds ⟨[(cs ['a','_','b'], [], false), (cs ['A','_','B'], [], false)], [], false, none, []⟩).Nodup := by
+  decide
+-- `whitespace` then `white-space … (space)`: the later one is a space terminal, still a collision
+example : ¬ (finalIds ⟨[(cs ['w','s'], [], false), (cs ['w','-','s'], [], true)], [], false, none, []⟩).Nodup ∧
+    (compileSyms ⟨[(cs ['w','s'], [], false), (cs ['w','-','s'], [], true)], [], false, none, []⟩).errs ≠ [] := by
   decide
 -- template instance `x_B` (ID `XB`) against the terminal `XB`
-example : ¬ (finalIds ⟨[(cs ['X','B'], [])], [cs ['i','n','p','u','t'], cs ['x']], false,
+example : ¬ (finalIds ⟨[(cs ['X','B'], [], false)], [cs ['i','n','p','u','t'], cs ['x']], false,
     some [cs ['i','n','p','u','t'], cs ['x','_','B']], []⟩).Nodup := by decide
 
 /-- …and a "get the same ID" error is reported only when two source-declared symbols or two registered
@@ -265,19 +269,19 @@ theorem C28_dup_sound (d : Decls) (h : hasDup (compileSyms d).errs = true) :
       · simp only [hemp]
         exact List.mem_map_of_mem hn
 
-example : hasDup (compileSyms ⟨[(cs ['a'], [])], [cs ['i','n','p','u','t'], cs ['A']], false, none, []⟩).errs = true := by
+example : hasDup (compileSyms ⟨[(cs ['a'], [], false)], [cs ['i','n','p','u','t'], cs ['A']], false, none, []⟩).errs = true := by
   decide
 
 /-- Concrete failure of duplicate detection (confirmed on the real `compiler.Compile`): the terminal
 `u_1` and the mid-rule nonterminal `u$1` of `u : a { … } b c ;` both get the ID `U_1`, no error. -/
 theorem C28_midrule_bad_witness :
-    let d : Decls := ⟨[(cs ['a'], []), (cs ['u','_','1'], [])], [cs ['i','n','p','u','t'], cs ['u']],
+    let d : Decls := ⟨[(cs ['a'], [], false), (cs ['u','_','1'], [], false)], [cs ['i','n','p','u','t'], cs ['u']],
       false, none, [cs ['u','$','1']]⟩
     ¬ (allIds d).Nodup ∧ (compileSyms d).errs = [] ∧
       ¬ ((compileSyms d).syms.map (·.id)).Nodup ∧ ¬ C28_dup_detect_full := by
   refine ⟨by decide, by decide, by decide, ?_⟩
   intro h
-  exact absurd (h ⟨[(cs ['a'], []), (cs ['u','_','1'], [])], [cs ['i','n','p','u','t'], cs ['u']],
+  exact absurd (h ⟨[(cs ['a'], [], false), (cs ['u','_','1'], [], false)], [cs ['i','n','p','u','t'], cs ['u']],
     false, none, [cs ['u','$','1']]⟩ (by decide)) (by decide)
 
 end TmVerif.Ident
